@@ -67,11 +67,11 @@ def decode {Sym : Type} (c : Cfg) (m : Model Sym) (x : Coder) : M (Sym × Coder)
   | .error f => .error f
   | .ok modulus =>
     let quantile := narrow c.B (narrow c.W (x.state % modulus))
-    let (s, cum, p) := m.dec quantile
-    match csub "ans.dec.remainder" quantile cum with
+    let r := m.dec quantile
+    match csub "ans.dec.remainder" quantile r.2.1 with
     | .error f => .error f
     | .ok remainder =>
-      match cmul "ans.dec.mul" c.S (x.state >>> c.P) p with
+      match cmul "ans.dec.mul" c.S (x.state >>> c.P) r.2.2 with
       | .error f => .error f
       | .ok t =>
         match cadd "ans.dec.add" c.S t remainder with
@@ -79,9 +79,9 @@ def decode {Sym : Type} (c : Cfg) (m : Model Sym) (x : Coder) : M (Sym × Coder)
         | .ok st =>
           if st < 2^(c.S - c.W) then
             match x.bulk with
-            | w :: rest => .ok (s, { x with bulk := rest, state := ((st <<< c.W) % 2^c.S) ||| w })
-            | [] => .ok (s, { x with state := st })
-          else .ok (s, { x with state := st })
+            | w :: rest => .ok (r.1, { x with bulk := rest, state := ((st <<< c.W) % 2^c.S) ||| w })
+            | [] => .ok (r.1, { x with state := st })
+          else .ok (r.1, { x with state := st })
 
 /-- the `while let Some(word)` loop of `read_initial_state` -/
 def readInitialLoop (c : Cfg) (state : Nat) : List Nat → Nat × List Nat
